@@ -100,6 +100,26 @@ func nodeSpecs(thorough bool) []*vals.Spec {
 			out = append(out, vals.NodeSpec(t, id))
 		}
 	}
+	// closure under the function being checked: ids that are the printed UUID of another value of the
+	// universe (a node, a predicate, a literal), in every spelling a UUID parser accepts, on a blank and
+	// on a typed node. NewBlankNode produces exactly such ids, and a UUID that is derived from an id
+	// that is itself a UUID must still separate all of them.
+	seeds := []*vals.Spec{vals.NodeSpec("/a", "a"), vals.NodeSpec("/_", "a"), vals.ImmSpec("a"), vals.TextSpec("abc")}
+	if thorough {
+		seeds = append(seeds, vals.NodeSpec("/t", "b"), vals.TempSpec("p", model.T0), vals.BoolSpec(true), vals.IntSpec(1))
+	}
+	for _, sd := range seeds {
+		u := fmt.Sprintf("%x", uuidOf(vals.MustBuild(sd)))
+		if len(u) != 32 {
+			continue
+		}
+		canon := u[0:8] + "-" + u[8:12] + "-" + u[12:16] + "-" + u[16:20] + "-" + u[20:]
+		for _, id := range []string{canon, strings.ToUpper(canon), "urn:uuid:" + canon, "{" + canon + "}", u} {
+			for _, t := range []string{"/_", "/t"} {
+				out = append(out, vals.NodeSpec(t, id))
+			}
+		}
+	}
 	return out
 }
 
